@@ -170,7 +170,7 @@ def checksums(run, r):
         step = 1 if run.thorough else 7
         for v in range(0, 65536, step):
             one(bytes([v >> 8, v & 0xFF]))
-    for _ in range(run.scale(3000, 100000)):
+    for _ in range(run.scale(3000, 600000)):
         one(bytes(r.randrange(256) for _ in range(r.randint(0, 300))))
         run.count('checksum_cases')
 
@@ -186,7 +186,7 @@ def run(run):
                 'non-trivial = message has a non-empty field; plus checksum comparisons on all 1/2-byte strings and random strings')
     run.assumptions = ['reference ADU builder and bitwise CRC/LRC in vmon/spec/adu.py', 'binary framing judged structurally on build (no public spec)']
     checksums(run, r)
-    per_kind = run.scale(140, 2500)
+    per_kind = run.scale(140, 25000)
     for k in gen.KINDS:
         d, fc, sub = k
         for i in range(per_kind):
